@@ -294,7 +294,8 @@ def run_spec(args: dict, sandbox: str) -> dict:
                 })
             for d in diags:
                 h = d["header"]
-                if h and h.strip() and h.strip() not in res["stderr"]:
+                # (compared modulo white space: a header may quote document text with CR / LF / TAB, which the terminal layer folds)
+                if h and h.strip() and "".join(h.split()) not in "".join(res["stderr"].split()):
                     violations.append({"kind": "diagnostic-not-printed", "locus": d["cls"], "detail": f"header {h!r} missing from CLI output"})
                     break
             # a failing post-hook is an error-level diagnostic AFTER the client was written; every other error-level
